@@ -66,10 +66,13 @@ func (c *MetricStatSlot) OnCompleted(ctx *base.EntryContext) {
 			// the rule was removed between the check above and here
 			return
 		}
-		breaker.OnRequestComplete(ctx.Rt(), err)
+		// The success mark first (as the retryer does for a successful check): the completion may close
+		// the node's breaker, and a recycle timer that fired after that but before the mark was set still
+		// found the node "not recovered" and removed it - a node that had just served a request.
 		if err == nil {
 			recycler := getRecyclerOfResource(res)
 			recycler.recover(address)
 		}
+		breaker.OnRequestComplete(ctx.Rt(), err)
 	}
 }
